@@ -26,7 +26,7 @@ impl Sub for HistQ {
         "hist"
     }
     fn cases(&self, tier: Tier) -> u32 {
-        tier.pick(1000, 40000)
+        tier.pick(1000, 15000)
     }
     fn max_shrink_iters(&self) -> u32 {
         1500
